@@ -143,6 +143,35 @@ func c01CheckRecord(w *core.W, r *model.Rec, tag string) {
 			}
 		}
 	}
+	// SVCB/HTTPS parameters listed in another order than by key (as a program or a zone file may
+	// list them) are emitted in ascending key order all the same (RFC 9460 s.2.2)
+	if err == nil && bytes.Equal(packed, wire) && (r.Type == 64 || r.Type == 65) {
+		sh, _ := buildAny(r)
+		var vals *[]dns.SVCBKeyValue
+		switch x := sh.(type) {
+		case *dns.SVCB:
+			vals = &x.Value
+		case *dns.HTTPS:
+			vals = &x.Value
+		}
+		if vals != nil && len(*vals) >= 2 {
+			v := *vals
+			for a, b := 0, len(v)-1; a < b; a, b = a+1, b-1 {
+				v[a], v[b] = v[b], v[a]
+			}
+			if len(v) > 2 {
+				v[0], v[1] = v[1], v[0]
+			}
+			var p2 []byte
+			var e2 error
+			if !w.Guard("PackRR(unordered SVCB parameters)", wit, func() { p2, e2 = packRR(sh) }) {
+				w.Count("svcb_unordered_packs", 1)
+				if e2 != nil || !bytes.Equal(p2, wire) {
+					w.Violation("C01/svcb-parameter-order/"+tn, fmt.Sprintf("the same parameters listed in another order: err=%v\n got  %s\n want %s", e2, hx(p2), hx(wire)), wit)
+				}
+			}
+		}
+	}
 	built, _ = buildAny(r) // fresh: PackRR rewrites Hdr.Rdlength
 	// (b) octets -> struct
 	var rr2 dns.RR
